@@ -249,4 +249,21 @@ def rule_d(ctx):
     return r
 
 
-RULES = [rule_a, rule_b, rule_c, rule_d]
+
+def rule_e(ctx):
+    """Conversion direction inside the calculation folding code (shared with C08-d, restricted to value/calculation.rs)."""
+    from . import c08
+    full = c08.rule_d(ctx)
+    r = RuleResult("C16-e", "min/max/clamp folding converts each operand from its own unit to the unit of the operand it is compared with")
+    for i in full.instances:
+        if "value::calculation" in i.get("key", ""):
+            r.instances.append(i)
+    for v in full.violations:
+        if "value::calculation" in v.key:
+            v.rule = "C16-e"
+            r.violations.append(v)
+    r.floor("direction obligations in calculation.rs", len(r.instances), 6)
+    return r
+
+
+RULES = [rule_a, rule_b, rule_c, rule_d, rule_e]
